@@ -10,6 +10,7 @@ import (
 	"time"
 
 	lpb "github.com/xuperchain/xupercore/bcs/ledger/xledger/xldgpb"
+	"github.com/xuperchain/xupercore/kernel/contract"
 	"github.com/xuperchain/xupercore/lib/xsimrt"
 	pb "github.com/xuperchain/xupercore/protos"
 )
@@ -101,6 +102,7 @@ func ExecC19(plan *G19Plan, rc *RunCtx) *Violation {
 	pd := c19Predists[abs(plan.Predist)%len(c19Predists)]
 	g := &Genesis{Predist: pd, NoFee: true, Award: "1000000"}
 	w := NewWorld(g, &Knobs{})
+	w.OnBoot = append(w.OnBoot, RegisterC19Stake)
 	rc.OnCleanup(w.Close)
 	rc.AttachHooks(&xsimrt.H{MapSeed: plan.MapSeed})
 	r := &c19Run{rc: rc, w: w, plan: plan, eff: map[string]*c19Eff{}, accts: map[string]bool{}, tainted: map[string]bool{}}
@@ -301,6 +303,50 @@ func (r *c19Run) receiver(i int) string {
 	return c19Fresh[j-len(c19AcctIdx)]
 }
 
+// c19StakeContract is the name of the consensus kernel contract that may lock governance tokens.
+const c19StakeContract = "$tdpos"
+
+// RegisterC19Stake registers the stand-in for the consensus contract's nominate / vote methods: it
+// locks (or releases) the initiator's tokens under the lock type "tdpos" through the real
+// $govern_token Lock / UnLock, which accept calls from $tdpos.
+func RegisterC19Stake(n *Node) {
+	reg := n.Ctx.Contract.GetKernRegistry()
+	reg.RegisterKernMethod(c19StakeContract, "xsimStake", func(k contract.KContext) (*contract.Response, error) {
+		method := "Lock"
+		if len(k.Args()["unlock"]) > 0 {
+			method = "UnLock"
+		}
+		// like the real consensus contract it keeps its own record and never releases more than it locked
+		// ($govern_token.UnLock trusts its callers and does not check)
+		amt, ok := new(big.Int).SetString(string(k.Args()["amount"]), 10)
+		if !ok || amt.Sign() < 0 {
+			return nil, fmt.Errorf("xsimStake: bad amount")
+		}
+		staked := new(big.Int)
+		if v, err := k.Get("xsimstake", []byte(k.Initiator())); err == nil && len(v) > 0 {
+			staked.SetString(string(v), 10)
+		}
+		if method == "UnLock" {
+			if amt.Cmp(staked) > 0 {
+				return nil, fmt.Errorf("xsimStake: %s staked, cannot release %s", staked, amt)
+			}
+			staked.Sub(staked, amt)
+		} else {
+			staked.Add(staked, amt)
+		}
+		args := map[string][]byte{"from": []byte(k.Initiator()), "amount": k.Args()["amount"], "lock_type": []byte("tdpos")}
+		resp, err := k.Call("xkernel", "$govern_token", method, args)
+		if err != nil {
+			return nil, err
+		}
+		if err := k.Put("xsimstake", []byte(k.Initiator()), []byte(staked.String())); err != nil {
+			return nil, err
+		}
+		k.AddResourceUsed(contract.Limits{Cpu: 1})
+		return resp, nil
+	})
+}
+
 func kreq(contract, method string, args map[string]string) *pb.InvokeRequest {
 	m := map[string][]byte{}
 	for k, v := range args {
@@ -418,9 +464,7 @@ func (r *c19Run) doStep(st *G19Step) *Violation {
 			tos = append(tos, op.To2)
 			reqs = append(reqs, kreq("$govern_token", "Transfer", map[string]string{"to": op.To2, "amount": c19Amount(st.H, pv, from.Addr)}))
 		}
-		if r.plan.Avoid || st.Op == "transfer2" {
-			// (the two-call form always stays clear of the known defects: their classification is
-			// exact only for a single transfer)
+		if false { // the two defects these steps used to trigger are repaired (5ab918d): nothing to avoid any more
 			for _, t := range tos {
 				if t == from.Addr {
 					r.logf("skip (avoid: transfer to self)")
@@ -480,6 +524,17 @@ func (r *c19Run) doStep(st *G19Step) *Violation {
 		amt := c19Amount(st.Amt+2, pv, from.Addr) // (class 0 of a vote: everything that is not locked)
 		r.logf("%s votes %s on %s", shortAcct(from.Addr), amt, pid)
 		return r.invoke(n, from, []*pb.InvokeRequest{kreq("$proposal", "Vote", map[string]string{"proposal_id": pid, "amount": amt})}, op, m)
+	case "stake", "unstake":
+		// a nomination / election-vote style lock: the consensus kernel contract ($tdpos) locks or
+		// releases the INITIATOR's tokens under the lock type "tdpos" (stand-in method xsimStake,
+		// registered by the harness because the chain runs the single consensus)
+		amt := c19Amount(st.Amt, pv, from.Addr)
+		args := map[string]string{"amount": amt}
+		if st.Op == "unstake" {
+			args["unlock"] = "1"
+		}
+		r.logf("%s %ss %s", shortAcct(from.Addr), st.Op, amt)
+		return r.invoke(n, from, []*pb.InvokeRequest{kreq(c19StakeContract, "xsimStake", args)}, &c19Op{Kind: st.Op, From: from.Addr, Pid: "stake"}, m)
 	case "lock", "unlock":
 		// direct calls from outside: no proposal / vote / nomination operation
 		victim := r.receiver(st.B)
